@@ -78,6 +78,11 @@ class Project(object):
     def check_changes(self):
         # type: () -> t.Iterator[None]
         self._context_cache.clear()
+        if any(m.changed for m in self._module_cache.values()):
+            # a cached analysis holds references into the analyses of the modules it
+            # imports (star imports, resolved names): an edited file invalidates its
+            # importers too, whether or not they changed themselves
+            self._module_cache.clear()
         yield
 
     def get_nmodule(self, name, filename):
